@@ -245,6 +245,8 @@ class SourceSet:
                 raise AnalysisError('cannot parse %s: %s' % (rel, e))
             t = _Canon().visit(t)
             t = _AliasInline().run(t)
+            from .tables import expand_tables
+            t = expand_tables(t)
             t = _Canon().visit(t)
             for n in ast.walk(t):
                 for c in ast.iter_child_nodes(n):
